@@ -569,15 +569,32 @@ fn setop_ro<P: HP, TA: HV, TB: HV>(kind: &str, va: TrieView<'_, P, TA>, vb: Trie
             let (xs, d) = drain(va.union(vb));
             list_or_diverge(
                 xs.into_iter()
-                    .map(|it| match it {
-                        trieview::UnionItem::Left { prefix, left, right } => {
-                            format!("L:{}>{}", fpv(prefix, left), flpm(right))
-                        }
-                        trieview::UnionItem::Right { prefix, left, right } => {
-                            format!("R:{}<{}", fpv(prefix, right), flpm(left))
-                        }
-                        trieview::UnionItem::Both { prefix, left, right } => {
-                            format!("B:{}={},{}", fp(prefix), left.show(), right.show())
+                    .map(|it| {
+                        // the accessor methods of `UnionItem` must agree with the variant's fields
+                        let acc = |ok: bool| if ok { "" } else { "!ACCESSOR" };
+                        match it {
+                            trieview::UnionItem::Left { prefix, left, right } => {
+                                let ok = std::ptr::eq(it.prefix(), prefix)
+                                    && it.both().is_none()
+                                    && it.left().map(|(p, v)| fpv(p, v)) == Some(fpv(prefix, left))
+                                    && it.right().map(|(p, v)| fpv(p, v)) == right.map(|(p, v)| fpv(p, v));
+                                format!("L:{}>{}{}", fpv(prefix, left), flpm(right), acc(ok))
+                            }
+                            trieview::UnionItem::Right { prefix, left, right } => {
+                                let ok = std::ptr::eq(it.prefix(), prefix)
+                                    && it.both().is_none()
+                                    && it.right().map(|(p, v)| fpv(p, v)) == Some(fpv(prefix, right))
+                                    && it.left().map(|(p, v)| fpv(p, v)) == left.map(|(p, v)| fpv(p, v));
+                                format!("R:{}<{}{}", fpv(prefix, right), flpm(left), acc(ok))
+                            }
+                            trieview::UnionItem::Both { prefix, left, right } => {
+                                let ok = std::ptr::eq(it.prefix(), prefix)
+                                    && it.both().map(|(p, l, r)| (fp(p), l.show(), r.show()))
+                                        == Some((fp(prefix), left.show(), right.show()))
+                                    && it.left().map(|(p, v)| fpv(p, v)) == Some(fpv(prefix, left))
+                                    && it.right().map(|(p, v)| fpv(p, v)) == Some(fpv(prefix, right));
+                                format!("B:{}={},{}{}", fp(prefix), left.show(), right.show(), acc(ok))
+                            }
                         }
                     })
                     .collect(),
@@ -1313,6 +1330,23 @@ fn pfx_op<P: HP>(t: &[&str]) -> String {
             let (a, b) = (p!(a), p!(b));
             format!("{};sym={}", fp(&a.longest_common_prefix(&b)), fp(&b.longest_common_prefix(&a)))
         }
+        // contains / eq / longest_common_prefix in both directions, one line
+        ["pair", a, b] => {
+            let (a, b) = (p!(a), p!(b));
+            format!(
+                "{},{};{};{};{}",
+                fb(a.contains(&b)),
+                fb(b.contains(&a)),
+                fb(Prefix::eq(&a, &b)),
+                fp(&a.longest_common_prefix(&b)),
+                fp(&b.longest_common_prefix(&a))
+            )
+        }
+        // is_bit_set for every index 0..=255
+        ["bits", a] => {
+            let a = p!(a);
+            (0..=255u8).map(|i| if a.is_bit_set(i) { '1' } else { '0' }).collect::<String>()
+        }
         ["bit", a, i] => {
             let i: u8 = match i.parse() {
                 Ok(i) => i,
@@ -1470,6 +1504,24 @@ fn step<P: HP>(st: &mut St<P>, line: &str) -> String {
             }
             let (a, b) = (m!(*ra), m!(*rb));
             format!("{},{}", fb(a == b), fb(b == a))
+        }
+        // `Default` of maps, sets and their iterators: empty containers, iterators that yield nothing
+        ["defaults"] => {
+            let m: PrefixMap<P, i64> = Default::default();
+            let s: PrefixSet<P> = Default::default();
+            let it: prefix_trie::map::Iter<'_, P, i64> = Default::default();
+            let mut itm: prefix_trie::map::IterMut<'_, P, i64> = Default::default();
+            format!(
+                "map={},{},{};set={},{},{};iters={},{},0,0,0",
+                m.len(),
+                fb(m.is_empty()),
+                m.iter().count(),
+                s.len(),
+                fb(s.is_empty()),
+                s.iter().count(),
+                it.count(),
+                fb(itm.next().is_none())
+            )
         }
         ["copy", ra, rb] => {
             let src = match *ra {
